@@ -75,6 +75,7 @@ pub fn run_one(seed: u64, thorough: bool) -> (Vec<Violation>, std::collections::
                         let c = cands[rng.gen_range(0..cands.len())];
                         let step = w.tick();
                         w.conns[c].closed_step = Some(step);
+                        w.conns[c].closed_instant = Some(Instant::now());
                         w.count("chaos_closes");
                         w.conns[c].ready_waker.take()
                     }
